@@ -30,6 +30,20 @@ def count(tier, seed):
 
 def make_case(tier, seed, index):
     rng = gen.rng_for(seed, 10, index)
+    if index % simprop.CORPUS_EVERY == simprop.CORPUS_EVERY - 1:
+        # library / fixture model (hand-written junction + duration-group layouts, several population types) under perturbation
+        from av import corpus
+
+        case = corpus.make_case(rng, max_steps=24 if tier == "quick" else 50)
+        case["dt"] = float(DYADIC[int(rng.integers(0, len(DYADIC)))])
+        case["steps"] = max(case["steps"], 4)
+        case["prog_start_step"] = float(int(case["prog_start_step"]))
+        k1 = int(rng.integers(1, case["steps"]))
+        chain = [k1]
+        if rng.random() < 0.4 and case["steps"] - k1 >= 2:
+            chain.append(int(rng.integers(1, case["steps"] - k1)))
+        case.update({"kind": "restart-corpus", "chain": chain, "spreadsheet": bool(rng.random() < 0.4)})
+        return case
     dts = DYADIC if rng.random() < 0.7 else gen.DTS
     pf = {"dts": dts, "p_targetable": 0.5, "steps": (6, 24), "p_timed": 0.5, "p_offgrid_end": 0.0, "p_junction_init": 0.5}
     if tier == "thorough":
@@ -85,14 +99,29 @@ def run_case(case):
     import sciris as sc
 
     R = ref.Recs()
-    spec, ps = case["spec"], case["progspec"]
-    P = gen.build_project(spec)
-    pset = gen.build_progset(ps, P.framework, P.data) if ps is not None else None
-    instr = gen.build_instructions(ps) if ps is not None else None
+    if case["kind"] == "restart-corpus":
+        from av import corpus
+
+        spec = None
+        P, pset, instr = corpus.build(dict(case, kind="corpus"))
+        ps = pset
+        fw = P.framework
+        if "is derivative" in fw.pars.columns and any(str(x).strip().lower() == "y" for x in fw.pars["is derivative"]):
+            return {"records": [], "stats": {"corpus_model_with_derivative_parameter": 1}, "nontrivial": False, "excluded": "derivative parameters are excluded by the property"}
+        if any("rand" in str(f) for f in fw.pars["function"] if f is not None):
+            return {"records": [], "stats": {"corpus_model_with_random_function": 1}, "nontrivial": False, "excluded": "stochastic parameter function"}
+        R.count("corpus_cases")
+    else:
+        spec, ps = case["spec"], case["progspec"]
+        P = gen.build_project(spec)
+        pset = gen.build_progset(ps, P.framework, P.data) if ps is not None else None
+        instr = gen.build_instructions(ps) if ps is not None else None
     parset = P.parsets[0]
     try:
         r0 = P.run_sim(parset, progset=pset, progset_instructions=instr)
     except Exception as e:
+        if spec is None and type(e).__name__ == "BadInitialization":
+            return {"records": [], "stats": {"corpus_bad_initialization": 1}, "nontrivial": False, "excluded": "perturbed databook cannot be initialised"}
         raise
     v0 = ref.View(r0)
     if v0.ill_posed_junctions():
@@ -102,11 +131,11 @@ def run_case(case):
         return {"records": [], "stats": {"nonfinite_parameter_runs": 1}, "nontrivial": False, "excluded": "non-finite parameter"}
     # programme start/stop years and stepped overwrite series are discontinuous in time: a grid point that differs in the
     # last bit can fall on the other side of such a date, so runs with programmes are only judged on bit-identical grids
-    cont = continuous(spec) and ps is None and spec["meta"]["vclass"] in ("mild", "binding_limits", "empty", "zero")
+    cont = spec is not None and continuous(spec) and ps is None and spec["meta"]["vclass"] in ("mild", "binding_limits", "empty", "zero")
     prev_res, prev_arrays, prev_t = r0, digest.result_arrays(r0), np.array(r0.model.t, dtype=float)
     prev_parset = parset
     nontrivial = False
-    dt = spec["settings"]["dt"]
+    dt = spec["settings"]["dt"] if spec is not None else case["dt"]
     end = float(prev_t[-1])
     for depth, k in enumerate(case["chain"]):
         Y = float(prev_t[k])
@@ -149,7 +178,7 @@ def run_case(case):
             try:
                 ss = ps2.calibration_spreadsheet()
                 fresh = at.ParameterSet(P.framework, P.data, "fresh")
-                for par, d in spec.get("yfactors", {}).items():
+                for par, d in (spec.get("yfactors", {}) if spec is not None else {}).items():
                     for pop, f in d.items():
                         fresh.pars[par].y_factor[pop] = f
                 fresh.load_calibration(ss)
@@ -168,6 +197,6 @@ def run_case(case):
             except Exception as e:
                 R.bad("spreadsheet-restart", "C10:spreadsheet-restart-fails[%s]" % type(e).__name__, {"error": str(e)[:300]})
         prev_res, prev_arrays, prev_t, prev_parset = r1, B, t1, ps2
-    sample = dict(simprop.sample_of(spec))
+    sample = dict(simprop.sample_of(spec)) if spec is not None else dict(corpus.describe(case))
     sample.update({"chain": case["chain"], "programs": ps is not None, "spreadsheet": case["spreadsheet"]})
     return {"records": R.records(), "stats": R.stats, "nontrivial": bool(nontrivial), "sample": sample}
